@@ -182,6 +182,10 @@ func init() {
 			}
 			// portion variables through the API
 			cases = append(cases, apiCase("C06", "api-portion-variable", []string{sendFixed("USD", "@world", "{ $p to @d remaining to @e }")}, map[string][2]string{"p": {"portion", "portion:1/3"}}))
+			// the same portion variable in several clauses of one allotment
+			cases = append(cases, apiCase("C06", "api-portion-variable-repeated", []string{sendFixed("USD", "@world", "{ $p to @d $p to @e remaining to @f }")}, map[string][2]string{"p": {"portion", "portion:1/4"}}))
+			cases = append(cases, apiCase("C06", "api-portion-variable-repeated", []string{sendFixed("USD", "{ $p from @a allowing unbounded overdraft $p from @b allowing unbounded overdraft remaining from @c allowing unbounded overdraft }", "@z")}, map[string][2]string{"p": {"portion", "portion:1/3"}}))
+			cases = append(cases, apiCase("C06", "api-portion-variable-repeated", []string{sendFixed("USD", "@world", "{ $p to @d $p to @e $p to @f $p to @g }")}, map[string][2]string{"p": {"portion", "portion:1/4"}}))
 			cases = append(cases, apiCase("C06", "api-portion-variable", []string{sendFixed("USD", "@world", "{ $p to @d $q to @e }")}, map[string][2]string{"p": {"portion", "portion:2/7"}, "q": {"portion", "portion:5/7"}}))
 			return cases
 		},
